@@ -687,7 +687,7 @@ impl Subscription {
                 IterDirection::Forward,
             )
             .await?;
-        while let Some(commits) = iter.next_batch(DEFAULT_BATCH_SIZE).await? {
+        'iter: while let Some(commits) = iter.next_batch(DEFAULT_BATCH_SIZE).await? {
             #[cfg(feature = "verif-hooks")]
             crate::verif::gate("subscription:stream-history:batch").await;
             for commit in commits {
@@ -696,7 +696,7 @@ impl Subscription {
                 };
 
                 if !watermark.can_read(first_partition_sequence) {
-                    break;
+                    break 'iter;
                 }
 
                 for event in commit {
